@@ -67,6 +67,62 @@ theorem unique_extremes :
     (∀ v ∈ versions, v = versionCode "SSL2" ∨ lt (versionCode "SSL2") v = true) := by
   decide +kernel
 
+/-! ### `sorted`, `min`, `max` do not depend on the order of arrival
+
+For the versions of the table (`V`), sorting with the library's `<=` gives the same list whatever
+permutation of the same versions is sorted: the order is total, transitive and antisymmetric, so a sorted
+list is determined by its elements. -/
+
+/-- a version of the table -/
+abbrev V := { c : Nat // c ∈ versions }
+
+/-- `a <= b` of `functools.total_ordering` on table versions -/
+def leV (a b : V) : Bool := le a.1 b.1
+
+theorem leV_total (a b : V) : (leV a b || leV b a) = true := by
+  have h := trichotomy a.1 a.2 b.1 b.2
+  unfold leV le
+  revert h
+  cases lt a.1 b.1 <;> cases lt b.1 a.1 <;> cases eq a.1 b.1 <;> cases hb : eq b.1 a.1 <;> simp_all [eq]
+
+theorem le_trans_table : ∀ a ∈ versions, ∀ b ∈ versions, ∀ c ∈ versions,
+    le a b = true → le b c = true → le a c = true := by
+  decide +kernel
+
+theorem leV_trans (a b c : V) (h1 : leV a b = true) (h2 : leV b c = true) : leV a c = true :=
+  le_trans_table a.1 a.2 b.1 b.2 c.1 c.2 h1 h2
+
+theorem le_antisymm_table : ∀ a ∈ versions, ∀ b ∈ versions, le a b = true → le b a = true → a = b := by
+  decide +kernel
+
+theorem leV_antisymm (a b : V) (h1 : leV a b = true) (h2 : leV b a = true) : a = b :=
+  Subtype.ext (le_antisymm_table a.1 a.2 b.1 b.2 h1 h2)
+
+/-- sorting any two arrangements of the same versions gives the same list -/
+theorem sorted_independent_of_arrival (l₁ l₂ : List V) (h : l₁.Perm l₂) :
+    l₁.mergeSort leV = l₂.mergeSort leV := by
+  have s1 := List.pairwise_mergeSort leV_trans leV_total l₁
+  have s2 := List.pairwise_mergeSort leV_trans leV_total l₂
+  have p : (l₁.mergeSort leV).Perm (l₂.mergeSort leV) :=
+    (List.mergeSort_perm l₁ leV).trans (h.trans (List.mergeSort_perm l₂ leV).symm)
+  exact List.Perm.eq_of_pairwise (fun a b _ _ hab hba => leV_antisymm a b hab hba) s1 s2 p
+
+/-- … and so do its first and last element (`min`, `max`) -/
+theorem min_max_independent_of_arrival (l₁ l₂ : List V) (h : l₁.Perm l₂) :
+    (l₁.mergeSort leV).head? = (l₂.mergeSort leV).head? ∧
+    (l₁.mergeSort leV).getLast? = (l₂.mergeSort leV).getLast? := by
+  rw [sorted_independent_of_arrival l₁ l₂ h]
+  exact ⟨rfl, rfl⟩
+
+
+/-- concrete instance: TLS 1.3 and a draft, in the two arrival orders (the hypothesis is satisfiable) -/
+example (a b : V) : [a, b].mergeSort leV = [b, a].mergeSort leV :=
+  sorted_independent_of_arrival _ _ (List.Perm.swap b a [])
+
+example : leV ⟨0x7f1c, by decide +kernel⟩ ⟨0x0304, by decide +kernel⟩ = true ∧
+    leV ⟨0x0304, by decide +kernel⟩ ⟨0x7f1c, by decide +kernel⟩ = false ∧
+    leV ⟨0x7e02, by decide +kernel⟩ ⟨0x7f1c, by decide +kernel⟩ = true := by decide +kernel
+
 /-! non-vacuity: the table is the real one -/
 example : versions.length ≥ 38 ∧ (0x7f1c ∈ versions) ∧ (0x7e01 ∈ versions) := by decide +kernel
 
